@@ -435,4 +435,3 @@ func Verify(body []byte, key any) VerifyBits {
 	}
 	return v
 }
-
